@@ -141,6 +141,8 @@ class ChannelHook:
 
     def on_attr_write(self, eng, obj=None, field=None, val=None, node=None):
         me = getattr(eng, "self_under_verification", None)
+        if me is not None and isinstance(obj, VObj) and obj.oid == me.oid and field == "last_activity":
+            eng.state.ghost["activity_refreshed"] = True        # C18: the idle clock was restarted
         if (me is not None and isinstance(obj, VObj) and obj.oid == me.oid and field == "will_close" and eng.cur_func.split("@")[0].endswith(".handle_write")
                 and node is not None):
             fn = eng.repo.find(eng.cur_qual)
@@ -252,7 +254,9 @@ def install(reg):
         ensures_exc=[("raise-has-no-side-effect", "self.connected == old(self.connected) and self.total_outbufs_len == old(self.total_outbufs_len)")],
         modifies=["self.connected", "self.total_outbufs_len"], cls=CH, check_invariant=False))
     reg.add(FuncContract(CH + ".handle_read", requires=[("io", "role_is('IO')")], raises=["OSError"], setup=alias,
-        ensures=[("C13-read-error-or-end-of-stream-disconnects", "implies(not received_called(), not self.connected)")],
+        ensures=[("C13-read-error-or-end-of-stream-disconnects", "implies(not received_called(), not self.connected)"),
+                 # a connection that receives data is not idle: its clock restarts before the data is handed to the parser
+                 ("C18-receiving-data-restarts-the-idle-clock", "implies(received_called(), activity_refreshed())")],
         modifies=["self.connected", "self.total_outbufs_len", "self.last_activity", "self.outbufs", "self.current_outbuf_count", "self.requests", "self.request",
                   "self.sent_continue"], check_invariant=False))
     # teardown on the I/O thread: under outbuf_lock it drops the backlog, clears `connected` and wakes a producer that is paused on the
@@ -280,7 +284,8 @@ def install(reg):
                  ("returns-whether-sent", "implies(not result, self.total_outbufs_len == old(self.total_outbufs_len) or not self.connected)"),
                  ("connected-only-cleared", "implies(self.connected, old(self.connected))"),
                  ("no-teardown-without-do_close", "implies(not do_close, self.connected == old(self.connected))"),
-                 ("C09-every-buffer-taken-off-the-queue-is-closed", "removed_unclosed() == 0")],
+                 ("C09-every-buffer-taken-off-the-queue-is-closed", "removed_unclosed() == 0"),
+                 ("C18-sending-data-restarts-the-idle-clock", "implies(result, activity_refreshed())")],
         ensures_exc=[("total-never-grows", "self.total_outbufs_len <= old(self.total_outbufs_len)"),
                      ("C09-every-buffer-taken-off-the-queue-is-closed", "removed_unclosed() == 0"),
                      ("no-teardown-without-do_close", "implies(not do_close, self.connected == old(self.connected))")],
@@ -367,6 +372,7 @@ def install_service(reg):
         ensures_exc=[("channel-keeps-an-outbuf", "len(self.channel.outbufs) >= 1")]))
     reg.spec_funcs["popped"] = ghost_flag("popped_request")
     reg.spec_funcs["received_called"] = ghost_flag("received_called")
+    reg.spec_funcs["activity_refreshed"] = ghost_flag("activity_refreshed")
     reg.spec_funcs["removed_unclosed"] = lambda eng: VInt(len(eng.state.ghost.get("removed_unclosed", {})))
     reg.add(FuncContract(CH + ".service", raises=[], setup=alias,
         requires=[("worker", "role_is('W')"), ("owns-connection", "len(self.requests) >= 1")],
